@@ -163,6 +163,8 @@ APPEND = {
  'C15': ('; build_cdf, build_ppf and rvs_bounded are regenerated from the source (imperative translator on real arrays) and proved equal to the model',
          ' T-tie: gen_build_ppf_eq_model (de-duplication before normalisation + index array = the model quantile nodes, for every density with a non-zero integral), gen_build_cdf_eq_model, '
          'gen_cdf_ppf_id, gen_ppf_cdf_id, gen_ppf_mono, gen_rvs_bounded_eq_model, gen_bounded_in_bounds; the extrapolation option with bounds beyond the grid, tables of counts.', ''),
+ 'C16': ('; the image sampler (xFITSImage._build_cdf, rvs_coordinates) is regenerated from the source (translator/lamtrans.py) and run on Float against the real class',
+         ' T-tie: gen_search_spec, gen_build_cdf_get, gen_pixel_share, gen_rvs_pixel, gen_rvs_randomized, gen_rvs_within_pixel (Props/C16Gen.lean).', ''),
  'C17': ('; _dt, nu, nudot, met_to_phase and fold are regenerated from the source with their mutual calls and proved equal to the model',
          ' T-tie: gen_fold_eq_model, gen_fold_is_fract, gen_fold_range, gen_rvs_fold_roundtrip, gen_met_to_phase_eq_model; coarse (ten-bin) pulse profiles.', ''),
  'C18': ('; _bin_gti, the xGTIList methods and the observation timeline (shrink, isgti, isocti, _bisect_odd, _calculate_epochs, filter_epochs, gti_list, octi_list) are regenerated from the source '
